@@ -55,7 +55,12 @@ class Report:
     def bad(self, rule, key, msg, where=None, detail=None):
         """A violated rule instance. `key` must be stable (no line numbers)."""
         self.instances.append((rule, key, False))
-        self.violations.append({"rule": rule, "key": "%s:%s" % (rule, key), "msg": msg, "where": where, "detail": detail})
+        k = "%s:%s" % (rule, key)
+        for v in self.violations:
+            if v["key"] == k:
+                v["count"] = v.get("count", 1) + 1
+                return
+        self.violations.append({"rule": rule, "key": k, "msg": msg, "where": where, "detail": detail})
 
     def floor(self, rule, what, count, minimum):
         self.info.setdefault("floors", {})["%s:%s" % (rule, what)] = {"count": count, "floor": minimum}
@@ -137,8 +142,10 @@ class Report:
             print("INFRASTRUCTURE: positive control(s) did not fire for rule(s) %s — the checker is broken, no verdict" % ",".join(infra), file=sys.stderr)
             return 2
         if new:
-            for v in new:
-                print("  violated %s at %s: %s" % (v["key"], v.get("where"), v["msg"]))
+            for v in new[:12]:
+                print("  violated %s at %s: %s%s" % (v["key"], v.get("where"), v["msg"], " (x%d)" % v["count"] if v.get("count") else ""))
+            if len(new) > 12:
+                print("  ... and %d more (see the replay file)" % (len(new) - 12))
             print("VIOLATION property=%s replay=%s" % (self.pid, replay))
             return 1
         return 0
